@@ -216,8 +216,15 @@ def check_split(case):
                            'capa': [1. + d for d in range(days)], 'price': [2. + 3 * d for d in range(days)]})
         book = eao.assets.OrderBook(name='orders', nodes=n1, orders=ob)
         assets = assets + [book] if case['orderbook'] == 'last' else [book] + assets
-    pf = eao.portfolio.Portfolio(assets)
     prices = {'p': price}
+    if case.get('plant'):
+        # dispatch factors that differ from interval to interval with the SAME variable layout: a plant whose fuel efficiency is a time series
+        gas = eao.assets.Node('g')
+        prices['eff'] = np.where(np.asarray([(t - start).days for t in tg.timepoints]) % 2 == 0, .5, .4)
+        prices['gp'] = 2. + (np.arange(tg.T) % 3)
+        assets = assets + [eao.assets.Plant(name='plant', nodes=[n1, gas], min_cap=0., max_cap=2., fuel_efficiency='eff'),
+                           eao.assets.SimpleContract(name='gas', nodes=gas, min_cap=0., max_cap=50., price='gp')]
+    pf = eao.portfolio.Portfolio(assets)
     op, res = optimize(pf, prices, tg)
     pf2 = eao.portfolio.Portfolio(assets)
     ops = pf2.setup_split_optim_problem(prices, tg, interval_size=case['interval'])
@@ -251,8 +258,11 @@ def check_split(case):
                             f'asset {a.name}: DCF total {got} vs -c.x of its own variables {own[a.name]}'))
             break
     d = o['dispatch']
-    for node in ('a', 'b'):
-        bal = d[[c for c in d.columns if c.endswith(f'({node})')]].sum(axis=1)
+    for node in ('a', 'b', 'g'):
+        cols_ = [c for c in d.columns if c.endswith(f'({node})')]
+        if not cols_:
+            continue
+        bal = d[cols_].sum(axis=1)
         if np.abs(bal.values).max() > 1e-5:
             for nm_ in ('C14.feasible.nodal_balance', 'C01.split.reported_dispatch_nets_to_zero'):
                 out.append(fail(nm_, 'portfolio:Portfolio.setup_split_optim_problem', case, params, f'node {node} not balanced: {np.abs(bal.values).max()} at step {int(np.abs(bal.values).argmax())}'))
@@ -474,11 +484,17 @@ def check_scaled(case):
     S, s = case['norm'], case['scale']
 
     def base(f):
+        if case.get('base') == 'must_take':
+            # a base asset whose dispatch is forced away from zero (delivery obligation), unfavourable at some prices
+            return eao.assets.SimpleContract(name='bat', nodes=node, price='fix', min_cap=1.5 * f, max_cap=2. * f, start=pts[a], end=pts[b])
+        if case.get('base') == 'load':
+            return eao.assets.SimpleContract(name='bat', nodes=node, min_cap=-2. * f, max_cap=-1. * f, extra_costs=.5, start=pts[a], end=pts[b])
         return eao.assets.Storage(name='bat', nodes=node, size=4. * f, cap_in=1. * f, cap_out=1. * f, start=pts[a], end=pts[b])
     sc = eao.assets.ScaledAsset(name='sc', base_asset=base(1.), start=pts[a], end=pts[b], min_scale=s, max_scale=s, norm_scale=S, fix_costs=case['rate'])
     mk = eao.assets.SimpleContract(name='m', nodes=node, price='p', min_cap=-10., max_cap=10.)
-    op, res = optimize(eao.portfolio.Portfolio([sc, mk]), {'p': price}, tg)
-    op2, res2 = optimize(eao.portfolio.Portfolio([base(s / S), mk]), {'p': price}, tg)
+    prices_ = {'p': price, 'fix': np.full(T, 17.)}
+    op, res = optimize(eao.portfolio.Portfolio([sc, mk]), prices_, tg)
+    op2, res2 = optimize(eao.portfolio.Portfolio([base(s / S), mk]), prices_, tg)
     if isinstance(res, str) or isinstance(res2, str):
         return out
     dur = float(np.sum(tg.dt[a:b]))
@@ -1770,4 +1786,85 @@ def check_coarse_kinds(case):
                 bounds=list(zip(op0.l, op0.u)), method='highs')
     if r.status == 0 and abs(res.value + r.fun) > 1e-5 * max(1., abs(r.fun)):
         F('C13.coarse.value_equals_fine_problem_with_equalities', f'coarse {res.value} vs reference {-r.fun}')
+    return out
+
+
+# ------------------------------------------------------------------------------------------------ C03 random small problems vs scipy milp
+def check_optimize_random(case):
+    """C03 on random small assembled problems (LP and MIP, any mix of row types U/L/S/N, duplicated mapping rows, boolean
+    variables with bounds other than 0/1, variables fixed by their bounds): success => the returned vector satisfies every
+    bound, every row according to its type and every boolean flag, value = -c.x, and no feasible point is better (independent
+    scipy milp); failure => scipy finds no feasible point either."""
+    from scipy.optimize import milp, LinearConstraint, Bounds
+    import scipy.sparse as sp
+    eao = eao_mod()
+    out = []
+    rng = random.Random(case['seed'])
+    n = rng.randint(1, 5)
+    m = rng.randint(0, 4)
+    c = np.asarray([float(rng.randint(-5, 5)) for _ in range(n)])
+    l = np.asarray([float(rng.randint(-3, 1)) for _ in range(n)])
+    u = np.asarray([lo + float(rng.choice([0, 0, 1, 2, 4])) for lo in l])
+    if case.get('all_fixed'):
+        u = l.copy()
+    A = np.asarray([[float(rng.choice([0, 0, 1, -1, 2])) for _ in range(n)] for _ in range(m)]).reshape(m, n)
+    for r in range(m):
+        if not np.any(A[r]):
+            A[r, rng.randrange(n)] = 1.      # (rows without any entry are left to the external solver's presolve, A1: not generated)
+    b = np.asarray([float(rng.randint(-3, 4)) for _ in range(m)])
+    ct = ''.join(rng.choice('ULSN') for _ in range(m))
+    isb = [case.get('mip', False) and rng.random() < .5 for _ in range(n)]
+    rows = []
+    for j in range(n):
+        for _ in range(rng.choice([1, 1, 2])):          # duplicated mapping rows
+            rows.append(dict(index=j, asset='a', node='n', type='d', time_step=j % 2, var_name='v', bool=isb[j]))
+    rng.shuffle(rows) if case.get('shuffle') else None
+    mp = pd.DataFrame(rows).set_index('index')
+    if not case.get('mip'):
+        mp = mp.drop(columns=['bool'])
+    op = eao.optimization.OptimProblem(c=c.copy(), l=l.copy(), u=u.copy(), A=sp.lil_matrix(A) if m else None, b=b.copy() if m else None,
+                                       cType=ct if m else None, mapping=mp)
+    res = op.optimize()
+    # reference
+    lo, hi = l.copy(), u.copy()
+    integ = np.zeros(n)
+    for j in range(n):
+        if isb[j]:
+            integ[j] = 1
+            lo[j], hi[j] = max(lo[j], 0.), min(hi[j], 1.)
+    cons = []
+    for r in range(m):
+        if ct[r] == 'U':
+            cons.append(LinearConstraint(A[r:r + 1], -np.inf, b[r]))
+        elif ct[r] == 'L':
+            cons.append(LinearConstraint(A[r:r + 1], b[r], np.inf))
+        else:
+            cons.append(LinearConstraint(A[r:r + 1], b[r], b[r]))
+    feasible_bounds = bool(np.all(lo <= hi))
+    ref = milp(c, constraints=cons or None, bounds=Bounds(lo, hi), integrality=integ) if feasible_bounds else None
+    ref_ok = ref is not None and ref.status == 0
+    F = lambda name, detail: out.append(fail(name, 'optimization:OptimProblem.optimize', case, dict(case), detail + f' | c={c.tolist()} l={l.tolist()} u={u.tolist()} A={A.tolist()} b={b.tolist()} cType={ct} bool={isb}'))
+    if isinstance(res, str):
+        if res != 'inaccurate' and ref_ok:
+            F('C03.failure_only_if_infeasible', f'optimiser reports {res}; scipy finds a feasible optimum {-ref.fun}')
+        return out
+    x = np.asarray(res.x, dtype=float)
+    tol = 1e-5
+    if np.any(x < l - tol) or np.any(x > u + tol):
+        F('C03.solution.within_bounds', f'x={x.tolist()}')
+    for r in range(m):
+        v = float(A[r] @ x)
+        if (ct[r] == 'U' and v > b[r] + tol) or (ct[r] == 'L' and v < b[r] - tol) or (ct[r] in 'SN' and abs(v - b[r]) > tol):
+            F('C03.solution.satisfies_every_row_by_type', f'row {r} type {ct[r]}: {v} vs {b[r]}; x={x.tolist()}')
+            break
+    for j in range(n):
+        if isb[j] and min(abs(x[j]), abs(x[j] - 1.)) > tol:
+            F('C03.solution.boolean_flags', f'variable {j} = {x[j]}')
+            break
+    if abs(res.value + float(c @ x)) > 1e-6 * max(1., abs(res.value)):
+        F('C03.value_is_minus_cost_times_vector', f'value {res.value} vs {-float(c @ x)}')
+    if not ref_ok:
+        F('C03.success_only_if_feasible', f'optimiser returns a solution; scipy status {None if ref is None else ref.status} (no feasible point)')
+    elif res.value < -ref.fun - 1e-5 * max(1., abs(ref.fun)):
+        F('C03.no_better_feasible_point', f'value {res.value} < reference optimum {-ref.fun}')
     return out
